@@ -35,6 +35,47 @@ Proof. intros R ns m nv steps st A b q v H0. split.
   - intros st' H. now apply (fast_agrees ns m nv steps st st').
   - apply run_fast_err. Qed.
 
+(* histories that carry option identities (same object handed again / equal-but-distinct objects): the identities
+   have no influence, the fast class agrees with the generic one after any such history *)
+Lemma main_fast_agrees_all_histories_with_option_reuse : forall (R : CR) ns m nv (steps : list (@ostep R)) (os : @ostate R)
+    (A : @mat R) (b q v : @vec R),
+  ext_matches (ns * m) m (f_w (o_st os)) (f_ext (o_st os)) ->
+  (forall os', run_fast_o m steps os = COk os' ->
+     run_fast m (map erase steps) (o_st os) = COk (o_st os') /\
+     (exists c', run_generic_o steps (f_w (o_st os), o_opt os) = COk c' /\ fst c' = f_w (o_st os')) /\
+     fast_value (ns * m) nv (f_ext (o_st os')) A b q v = se_value ns m nv (f_w (o_st os')) A b q v /\
+     forall al, fast_grad (ns * m) nv (f_ext (o_st os')) A b q v al = se_grad ns m nv (f_w (o_st os')) A b q v al) /\
+  (run_fast_o m steps os = CErr -> run_generic_o steps (f_w (o_st os), o_opt os) = CErr).
+Proof. intros R ns m nv steps os A b q v H0.
+  pose proof (run_fast_o_erase m steps os) as HF.
+  pose proof (run_generic_o_erase steps (f_w (o_st os), o_opt os)) as HG. cbn [fst] in HG.
+  split.
+  - intros os' H. rewrite H in HF. destruct (run_fast m (map erase steps) (o_st os)) as [st'|] eqn:E; [|contradiction].
+    subst st'. split; [reflexivity|].
+    destruct (fast_agrees ns m nv (map erase steps) (o_st os) (o_st os') A b q v H0 E) as [Hg [Hv Hgr]].
+    rewrite Hg in HG. destruct (run_generic_o steps (f_w (o_st os), o_opt os)) as [c'|]; [|contradiction].
+    split; [exists c'; split; [reflexivity|exact HG]|]. split; [exact Hv|exact Hgr].
+  - intros H. rewrite H in HF. destruct (run_fast m (map erase steps) (o_st os)) as [st'|] eqn:E; [contradiction|].
+    rewrite (run_fast_err m (map erase steps) (o_st os) E) in HG.
+    destruct (run_generic_o steps (f_w (o_st os), o_opt os)); [contradiction|reflexivity]. Qed.
+
+Lemma main_reconfiguration_uses_current_data : forall (R : CR) m oid md (c : @wts R) k (os : @ostate R),
+  match step_fast_o m (OConfig oid md c k) os, step_generic_o (OConfig oid md c k) (f_w (o_st os), o_opt os), mode_spec md c k with
+  | COk os', COk c', COk w =>
+      f_w (o_st os') = w /\ fst c' = w /\ o_opt os' = Some oid /\
+      f_ext (o_st os') = match w with Some w' => Some (ext_of m w') | None => None end
+  | CErr, CErr, CErr => True
+  | _, _, _ => False
+  end.
+Proof. intros. pose proof (reconfigure_same_option m oid md c k os) as H.
+  unfold step_generic_o. cbn [erase step_generic fst snd]. unfold config_generic. rewrite modes_effective.
+  destruct (step_fast_o m (OConfig oid md c k) os) as [os'|], (mode_spec md c k) as [w|]; try exact H.
+  destruct H as [H1 [H2 H3]]. cbn [fst]. repeat split; assumption. Qed.
+
+Lemma main_re_option_identity_irrelevant : forall (R : CR) m (steps : list (@rostep R)) (os : @rostate R),
+  ro_st (run_re_fast_o m steps os) = run_re_fast m (map rerase steps) (ro_st os).
+Proof. intros. apply run_re_fast_o_erase. Qed.
+
 Lemma main_modes_effective : forall (R : CR) md (c : @wts R) k (cur : @wts R) m (st : @fstate R),
   config_generic md c k cur = mode_spec md c k /\
   match config_fast m md c k st, mode_spec md c k with
